@@ -30,7 +30,8 @@ def order_rule(F, rep):
     b = F.body(peppifmt.WRITE)
     val = L.strip_try(b["tir"]["value"])
     stmts = val.get("stmts", [])
-    last_append = max((i for i, s in enumerate(stmts) if any((x.get("path") or "").endswith("tar_append") for x in tir.walk(s))), default=None)
+    helpers = peppifmt.append_helpers(F)
+    last_append = max((i for i, s in enumerate(stmts) if any((x.get("path") or "") in helpers for x in tir.walk(s) if x.get("k") == "Call")), default=None)
     after = []
     if last_append is not None:
         for s in stmts[last_append + 1:]:
@@ -76,9 +77,13 @@ def determinism_rule(F, rep):
     rep.ob("deterministic", not bad, peppifmt.WRITE, "nondeterminism", "the writer's reachable set calls %s" % bad[:4])
     rep.counts["writer_reachable_fns"] = len(R)
     # the tar header is built from constant/derived values only
-    b = F.body("io::peppi::ser::tar_append")
+    helpers = peppifmt.append_helpers(F)
+    b = F.body(sorted(helpers)[0]) if helpers else None
+    rep.ob("deterministic.helper", b is not None, peppifmt.WRITE, "append-helper", "no function appending tar entries was found")
+    if b is None:
+        return
     hdr = sorted(set((callee(n) or "").split("::")[-1] for n in tir.walk(b["tir"]["value"]) if n.get("k") in ("Call", "MethodCall") and "tar::Header" in (callee(n) or "")))
-    rep.ob("deterministic.header", set(hdr) <= {"new_gnu", "set_size", "set_path", "set_mode", "set_cksum"}, "io::peppi::ser::tar_append", "header", "tar header built with %s" % hdr,
+    rep.ob("deterministic.header", set(hdr) <= {"new_gnu", "set_size", "set_path", "set_mode", "set_cksum"}, b["path"], "header", "tar header built with %s" % hdr,
            sample={"header_calls": hdr})
 
 
